@@ -181,6 +181,11 @@ func MergeMap[K, V any]() fp.Monoid[fp.Map[K, V]] {
 	return New(
 		fp.Zero[fp.Map[K, V]],
 		func(a, b fp.Map[K, V]) fp.Map[K, V] {
+			// Empty is the zero-value Map, which knows no hasher: merging into it would rebuild b
+			// as a plain Go map keyed by == and lose b's own key equivalence
+			if a.IsEmpty() {
+				return b
+			}
 			return a.Concat(b)
 		})
 }
@@ -189,6 +194,10 @@ func MergeSet[V any]() fp.Monoid[fp.Set[V]] {
 	return New(
 		fp.Zero[fp.Set[V]],
 		func(a, b fp.Set[V]) fp.Set[V] {
+			// see MergeMap: the zero-value Set has no hasher
+			if a.IsEmpty() {
+				return b
+			}
 			return a.Concat(b)
 		})
 }
